@@ -6,9 +6,9 @@ CONSTANTS
   MaxSteps = 7
   FIXED = TRUE
   ABORTS = TRUE
-  RESETONERR = FALSE
+  RESETONERR = TRUE
   EOMCTX = TRUE
-  KEEPOPEN = TRUE
+  KEEPOPEN = FALSE
   GEN = FALSE
 INVARIANTS C01_Messages C01_AllButLastFull C01_NothingLeftBehind C01_SizeBound C01_FlushTerminates C13_CancelledWritesNothing
 VIEW View
